@@ -8,6 +8,7 @@ import (
 	"fmt"
 	"os"
 	"os/exec"
+	"strconv"
 	"strings"
 	"sync"
 	"testing"
@@ -228,6 +229,41 @@ func c15Check(ci interface{}) Verdict {
 				return Viol("process:differs", "the document rendered in a new process gives another call sequence (digest %s vs %s)\n%s", digest, traceDigest(refs[0]), c.Docs[0].HTML)
 			}
 		}
+		// a new process again, where four renders of the document start together before anything else
+		// was rendered (cold dictionaries and caches)
+		{
+			cmd := exec.Command(os.Args[0], "-test.run", "^TestTraceOf$", "-vdoc", f.Name())
+			cmd.Env = append(os.Environ(), "VERIF_C15_CONC=4")
+			var out bytes.Buffer
+			cmd.Stdout = &out
+			cmd.Stderr = &out
+			done := make(chan error, 1)
+			if err := cmd.Start(); err != nil {
+				return Verdict{Excluded: "infra-exec", Labels: labels}
+			}
+			go func() { done <- cmd.Wait() }()
+			select {
+			case <-done:
+			case <-time.After(90 * time.Second):
+				cmd.Process.Kill()
+				return Verdict{Excluded: "child-timeout", Labels: labels}
+			}
+			var digests []string
+			for _, l := range strings.Split(out.String(), "\n") {
+				if strings.HasPrefix(l, "TRACES ") {
+					digests = strings.Fields(l[7:])
+				}
+			}
+			if len(digests) == 0 {
+				return Verdict{Excluded: "child-no-trace", Msg: tail(out.String(), 300), Labels: labels}
+			}
+			for i, dg := range digests {
+				if dg != traceDigest(refs[0]) {
+					return Viol("process:cold-concurrent", "render %d of 4 started together in a new process gives another call sequence than the document rendered alone (digest %s vs %s)\n%s", i, dg, traceDigest(refs[0]), c.Docs[0].HTML)
+				}
+			}
+			labels = append(labels, "cold-concurrent")
+		}
 	case "concurrent":
 		got := make([]string, len(c.Docs))
 		oks := make([]bool, len(c.Docs))
@@ -278,6 +314,26 @@ func c15TraceOf(t *testing.T, file string) {
 	if err := json.Unmarshal(b, &d); err != nil {
 		t.Fatal(err)
 	}
+	if n, _ := strconv.Atoi(os.Getenv("VERIF_C15_CONC")); n > 1 {
+		// nothing has been rendered in this process yet: the renders start together, on cold process-wide caches
+		digests := make([]string, n)
+		var wg sync.WaitGroup
+		for i := 0; i < n; i++ {
+			wg.Add(1)
+			go func(i int) {
+				defer wg.Done()
+				tr, ok := c15Trace(d)
+				if !ok {
+					digests[i] = "failed:" + firstLines(tr, 1)
+					return
+				}
+				digests[i] = traceDigest(tr)
+			}(i)
+		}
+		wg.Wait()
+		fmt.Println("TRACES " + strings.Join(digests, " "))
+		return
+	}
 	tr, ok := c15Trace(d)
 	if !ok {
 		fmt.Println("TRACE failed:" + firstLines(tr, 1))
@@ -296,7 +352,7 @@ func init() {
 		Race:             true,
 		CaseTimeout:      90 * time.Second,
 		QuickN:           320,
-		ThoroughN:        12000,
+		ThoroughN:        4000,
 		Rule: "Documents of the C01 generator (pango engine) enriched with content touching every process-wide table or cache (hyphenation dictionaries for hu/en/fr with hyphens:auto, predefined and author counter styles, three fonts, SVG images, several ids and internal links per page, floats / absolutely positioned boxes). Histories: repeat (50%) - 1-3 documents rendered 5-9 times in a drawn interleaved order in one process, each with a fresh font configuration; process (10%) - the same document rendered twice in new processes (other map seeds, no earlier render); " +
 			"concurrent (40%) - 2-6 documents rendered at once, one goroutine and one font configuration each, with drawn start offsets, against the same documents rendered one after the other. Oracle: the canonical serialisation of the full backend trace (every call, every argument, float32 bit patterns) must be identical; the worker is built with -race and GORACE=halt_on_error, so a data race on an executed access kills the worker and is reported with the racing functions as signature. " +
 			"Non-trivial: some trace has >= 50 calls.",
